@@ -39,7 +39,7 @@ def path_steps(rec):
                 j = 0
             else:
                 break
-        ov = "*" if undef else ovs[i]
+        ov = "*" if undef or i >= len(ovs) else ovs[i]
         out.append((segs[i][0], segs[i][1], segs[j][0], segs[j][1], ov))
     return out
 
